@@ -124,6 +124,7 @@ CONF_UPDATE_HOOK(iauth_class_conf_changed)
     struct conf_node_object *obj;
     struct conf_node_string *str;
     struct set_node *it;
+    struct set_node *jt;
     unsigned int n_rules;
     unsigned int o_idx = 0;
     int res;
@@ -139,6 +140,11 @@ CONF_UPDATE_HOOK(iauth_class_conf_changed)
             continue;
         obj = set_node_data(it);
 
+        /* Edits inside an existing rule must recompile the rules, too. */
+        obj->base.hook = iauth_class_conf_changed;
+        for (jt = set_first(&obj->contents); jt != NULL; jt = set_next(jt))
+            ((struct conf_node_base *)set_node_data(jt))->hook = iauth_class_conf_changed;
+
         /* Load the new rule. */
         rule = &new_rules.vec[new_rules.used];
         rule->name = xstrdup(obj->base.name);
@@ -149,7 +155,7 @@ CONF_UPDATE_HOOK(iauth_class_conf_changed)
         if (str)
             rule->account = xstrdup(str->value);
         str = conf_get_child(obj, "address", CONF_STRING);
-        if (str)
+        if (str && str->value) /* NULL while the entry is being removed */
             irc_pton(&rule->address, &rule->address_bits, str->value, 0);
         str = conf_get_child(obj, "username", CONF_STRING);
         if (str)
@@ -161,7 +167,7 @@ CONF_UPDATE_HOOK(iauth_class_conf_changed)
         if (str)
             rule->xreply_ok = xstrdup(str->value);
         str = conf_get_child(obj, "trust_username", CONF_STRING);
-        if (str)
+        if (str && str->value)
             rule->trust_username = conf_parse_boolean(str->value, 0);
 
         /* Increment the number of rules in the new set. */
